@@ -57,6 +57,7 @@ def toU32 (x : Int) : Nat := (x % 4294967296).toNat
 
 inductive ErrType where
   | required | invalid | duplicate | forbidden
+  | other       -- the remaining field.ErrorType values (only `ValidateObjectMeta` produces them)
 deriving Repr, DecidableEq, Inhabited
 
 structure FieldErr where
